@@ -70,7 +70,7 @@ def run(ctx):
     sched.install(sch)
     groups = {}
     total = 0
-    limit = 3000 if ctx.quick else 60000
+    limit = 4000 if ctx.quick else 100000
     try:
         for nt, reqs, own in CONFIGS:
             def make_bodies(nt=nt, reqs=reqs, own=own):
@@ -113,10 +113,10 @@ def run(ctx):
                     return {'threads': nt, 'reqs': reqs, 'own': [list(x) for x in own],
                             'ev': [{'t': e['t'], 'k': e['k'], 'v': (e['v'] if e['v'] is not None else -9)}
                                    for e in trace], 'schedule': chosen}
-                return bodies, finish
+                return bodies, finish, impl._reqid_generator_guard
             # caller supplied ids are recognised in the opener through the X-Mine echo header
             execs = []
-            for res in sched.explore(sch, make_bodies, limit=limit):
+            for res in sched.explore_sleep(sch, make_bodies, limit=limit):
                 execs.append(res)
             total += len(execs)
             groups.setdefault((nt, reqs), []).extend(execs)
